@@ -44,7 +44,7 @@ func pkgDirs(s progen.Spec) map[string]string {
 // loadTyped type-checks the original module.
 func loadTyped(box *h.Box, src string, flags []string) []*packages.Package {
 	cfg := &packages.Config{
-		Mode:       packages.NeedName | packages.NeedFiles | packages.NeedSyntax | packages.NeedTypes | packages.NeedTypesInfo | packages.NeedImports | packages.NeedDeps | packages.NeedCompiledGoFiles,
+		Mode:       packages.NeedName | packages.NeedFiles | packages.NeedSyntax | packages.NeedTypes | packages.NeedTypesInfo | packages.NeedImports | packages.NeedCompiledGoFiles, // dependencies come from export data
 		Dir:        src,
 		Env:        box.Env(h.Config{}),
 		BuildFlags: flags,
